@@ -6,6 +6,7 @@ import (
 	"github.com/truora/minidyn/interpreter"
 	"sort"
 	"strings"
+	"sync"
 
 	"github.com/aws/aws-sdk-go/aws"
 	"github.com/aws/aws-sdk-go/aws/awserr"
@@ -185,6 +186,8 @@ func ClassifyV1(err error) string {
 // V1 drives the aws-sdk-go (v1) client.
 type V1 struct {
 	C *v1client.Client
+	// shared: request objects handed to the client by several calls (Op.Shared)
+	shared sync.Map
 }
 
 // NewV1 returns a driver with a fresh client.
@@ -364,6 +367,12 @@ func (d *V1) Apply(op model.Op) (res model.Result) {
 			return r
 		}
 		return model.Result{Desc: v1Desc(out.TableDescription)}
+	case "DeclareAttrs": // UpdateTable that carries attribute definitions and no index action
+		out, err := c.UpdateTable(&dynamodb.UpdateTableInput{TableName: aws.String(op.Table), AttributeDefinitions: v1AttrDefs(op.IndexAttrs)})
+		if err != nil {
+			return fail(err)
+		}
+		return model.Result{Desc: v1Desc(out.TableDescription)}
 	case "DeleteIndex":
 		out, err := c.UpdateTable(&dynamodb.UpdateTableInput{TableName: aws.String(op.Table),
 			GlobalSecondaryIndexUpdates: []*dynamodb.GlobalSecondaryIndexUpdate{{Delete: &dynamodb.DeleteGlobalSecondaryIndexAction{IndexName: aws.String(op.Index)}}}})
@@ -448,8 +457,13 @@ func (d *V1) Apply(op model.Op) (res model.Result) {
 		}
 		return r
 	case "Get":
-		out, err := c.GetItem(&dynamodb.GetItemInput{TableName: aws.String(op.Table), Key: ToV1Item(op.Key),
-			ProjectionExpression: strPtrOrNil(op.Projection), ExpressionAttributeNames: v1Names(op.Names), ConsistentRead: boolPtrOrNil(op.Consistent)})
+		in := &dynamodb.GetItemInput{TableName: aws.String(op.Table), Key: ToV1Item(op.Key),
+			ProjectionExpression: strPtrOrNil(op.Projection), ExpressionAttributeNames: v1Names(op.Names), ConsistentRead: boolPtrOrNil(op.Consistent)}
+		if op.Shared != "" {
+			p, _ := d.shared.LoadOrStore(op.Shared, in)
+			in = p.(*dynamodb.GetItemInput)
+		}
+		out, err := c.GetItem(in)
 		if err != nil {
 			return fail(err)
 		}
@@ -465,6 +479,10 @@ func (d *V1) Apply(op model.Op) (res model.Result) {
 		if op.Backward {
 			in.ScanIndexForward = aws.Bool(false)
 		}
+		if op.Shared != "" {
+			p, _ := d.shared.LoadOrStore(op.Shared, in)
+			in = p.(*dynamodb.QueryInput)
+		}
 		out, err := c.Query(in)
 		if err != nil {
 			return fail(err)
@@ -476,6 +494,10 @@ func (d *V1) Apply(op model.Op) (res model.Result) {
 			ExclusiveStartKey: ToV1Item(op.StartKey), ConsistentRead: boolPtrOrNil(op.Consistent), ProjectionExpression: strPtrOrNil(op.Projection)}
 		if op.Limit > 0 {
 			in.Limit = aws.Int64(int64(op.Limit))
+		}
+		if op.Shared != "" {
+			p, _ := d.shared.LoadOrStore(op.Shared, in)
+			in = p.(*dynamodb.ScanInput)
 		}
 		out, err := c.Scan(in)
 		if err != nil {
